@@ -86,7 +86,9 @@ def zipOwnership (extra : Bytes) : OwnerRes :=
     | some d => parseUnix3 d
     | none =>
       match lookupLast bs 0x7855 with
-      | some d => parseUnix2 d
+      -- (the central-directory form of Info-ZIP 2.x's `Ux` block carries no data: the ids live in the local header,
+      --  which archive/zip does not hand on — no owner information, hence the default; since the `fix:`)
+      | some d => if d.length = 0 then .ok 1000 1000 else parseUnix2 d
       | none => .ok 1000 1000
 
 def le16Bytes (v : Nat) : Bytes := [UInt8.ofNat (v % 256), UInt8.ofNat (v / 256 % 256)]
